@@ -30,6 +30,7 @@ class Profile(dict):
         style_map=0.5, separators=False, bang=0.1, markdown=0.0,
         optional_absent=0.15,   # probability that an optional part (styles, numbering, content types, rels) is absent
         p_embedded_map=0.1, p_tstyle=0.4,
+        p_ppr_neutral=0.12,     # paragraph properties without any output (w:sectPr of a section's last paragraph, w:keepNext, w:spacing, ...)
     )
 
     def __missing__(self, k):
@@ -197,6 +198,7 @@ class DocGen:
         saved = self.in_note
         self.in_note = True
         body = [self.paragraph(depth + 1, allow_deleted=False) for _ in range(self.rng.randint(1, 2))]
+        body += self.deleted_tail(depth + 1)
         self.in_note = saved
         self.notes[ty].append((nid, body))
         self.hit("note-" + ty)
@@ -209,6 +211,7 @@ class DocGen:
         self.comments.append(None)          # reserve the id before generating the body
         idx = len(self.comments) - 1
         body = [self.paragraph(depth + 1, allow_deleted=False)]
+        body += self.deleted_tail(depth + 1)
         self.in_note, self.in_comment = saved
         attrs = [("w:id", cid)]
         r = self.rng.random()
@@ -286,6 +289,7 @@ class DocGen:
 
     def textbox(self, depth):
         body = [self.paragraph(depth + 1, allow_deleted=False) for _ in range(self.rng.randint(1, 2))]
+        body += self.deleted_tail(depth + 1)
         self.hit("textbox")
         return el("w:pict", [], [el("v:shape", [], [el("v:textbox", [], [el("w:txbxContent", [], body)])])])
 
@@ -392,6 +396,13 @@ class DocGen:
     def altcontent(self, gen):
         rng = self.rng
         children = [el("mc:Choice", [("Requires", "wps")], [el("w:t", [], ["CHOICE"])] if rng.random() < 0.5 else [])]
+        if rng.random() < 0.7:
+            # what Requires says (a list of namespace PREFIXES as declared in the document) and how many choices there are is
+            # nothing to a consumer that reads the fallback whatever the choices require
+            children[0][1] = [["Requires", self.requires()]]
+            if rng.random() < 0.25:
+                children.append(el("mc:Choice", [("Requires", self.requires())], [el("w:t", [], ["CHOICE2"])] if rng.random() < 0.7 else []))
+            self.hit("altcontent-requires")
         kind = rng.random()
         if kind < 0.75:
             fb = gen()
@@ -403,6 +414,17 @@ class DocGen:
         else:
             self.hit("altcontent-nofallback")
         return el("mc:AlternateContent", [], children)
+
+    MCE_PREFIXES = ["wps", "wpg", "w14", "wp14", "a14", "w", "r", "wp", "a", "pic", "v", "o", "mc", "wordml"]
+
+    def requires(self):
+        """a value of mc:Choice/@Requires, mc:Ignorable ...: namespace prefixes separated by white space - Word's extension
+        namespaces and namespaces the library has a name of its own for (docx.xml_to_bytes writes each token as the prefix
+        the spelling binds to that namespace)"""
+        rng = self.rng
+        if rng.random() < 0.04:
+            return ""
+        return rng.choice([" ", " ", "  "]).join(rng.choice(self.MCE_PREFIXES) for _ in range(rng.choice([1, 1, 1, 2, 3])))
 
     def sdt(self, depth, inline):
         rng = self.rng
@@ -422,6 +444,29 @@ class DocGen:
         return el("w:sdt", [], ch)
 
     # ---- block content -------------------------------------------------
+    def deleted_tail(self, depth):
+        """only with the profile key p_deleted_tail (no draw without it): the END of a container (body, cell, note, comment,
+        text box) is a paragraph whose mark is tracked as deleted, followed or not by elements the reader ignores.  What
+        becomes of its content is outside the grammar of C01 (DESIGN 15.4, O1: it moves into the next paragraph the same
+        reader reads, or is lost); whatever it is, it must not depend on how the package is spelt (C13)."""
+        pd = self.pf.get("p_deleted_tail", 0)
+        if not pd or self.rng.random() >= pd:
+            return []
+        rng = self.rng
+        p = self.paragraph(depth, allow_deleted=False)
+        mark = el("w:rPr", [], [el("w:del", [("w:id", "9")])])
+        if p[2] and not isinstance(p[2][0], str) and p[2][0][0] == "w:pPr":
+            p[2][0][2] = [c for c in p[2][0][2] if c[0] != "w:rPr"] + [mark]
+        else:
+            p[2].insert(0, el("w:pPr", [], [mark]))
+        self._last_deleted = True
+        self.hit("deleted-mark-tail")
+        out = [p]
+        while rng.random() < 0.35:
+            out.append(el(rng.choice(["w:bookmarkEnd", "w:proofErr", "w:commentRangeEnd", "w:sectPr", "w:commentRangeStart"]), [("w:id", "5")]))
+            self.hit("deleted-mark-tail-then-ignored")
+        return out
+
     def ppr(self, allow_deleted):
         rng = self.rng
         ch = []
@@ -443,7 +488,24 @@ class DocGen:
             ch.append(el("w:jc", [("w:val", "center")]))
         if rng.random() < 0.1:
             ch.append(el("w:ind", [("w:left", "720")]))
+        if self.p("p_ppr_neutral"):
+            ch.insert(rng.randint(0, len(ch)), self.ppr_neutral())
         return el("w:pPr", [], ch)
+
+    def ppr_neutral(self):
+        """a paragraph property that says nothing about the text: above all the w:sectPr that the LAST paragraph of every
+        section but the final one carries (that paragraph is a paragraph like any other, empty or not)"""
+        rng = self.rng
+        if rng.random() < 0.6:
+            sub = [c for c in (el("w:type", [("w:val", rng.choice(["nextPage", "continuous", "oddPage"]))]), el("w:pgSz", [("w:w", "11906"), ("w:h", "16838")]),
+                               el("w:cols", [("w:space", "708")])) if rng.random() < 0.5]
+            self.hit("ppr-sectpr")
+            return el("w:sectPr", [("w:rsidR", "00A1B2C3")] if rng.random() < 0.3 else [], sub)
+        self.hit("ppr-neutral")
+        return rng.choice([el("w:keepNext"), el("w:keepLines"), el("w:pageBreakBefore"), el("w:widowControl", [("w:val", "0")]),
+                           el("w:spacing", [("w:before", "240"), ("w:after", "0")]), el("w:framePr", [("w:w", "100"), ("w:hAnchor", "page")]),
+                           el("w:pBdr", [], [el("w:bottom", [("w:val", "single")])]), el("w:tabs", [], [el("w:tab", [("w:val", "left"), ("w:pos", "720")])]),
+                           el("w:outlineLvl", [("w:val", "0")]), el("w:pPrChange", [("w:id", "4")], [el("w:pPr", [], [el("w:pStyle", [("w:val", "Heading1")])])])])
 
     def numpr(self):
         rng = self.rng
@@ -522,6 +584,7 @@ class DocGen:
                         if depth < self.pf["max_depth"] and self.p("p_nested_table"):
                             content.append(self.table(depth + 2))
                         content.append(self.paragraph(depth + 2, allow_deleted=False))
+                content += self.deleted_tail(depth + 2)
                 if rng.random() < 0.8 or tcpr:
                     content = [el("w:tcPr", [], tcpr)] + content
                 cells.append(el("w:tc", [], content))
@@ -661,10 +724,12 @@ class DocGen:
         pf = self.pf
         if body_blocks is None:
             body_blocks = self.blocks(0, rng.randint(1, pf["max_blocks"]))
-        body = list(body_blocks)
+        body = list(body_blocks) + self.deleted_tail(0)
         if rng.random() < 0.5:
             body.append(el("w:sectPr", [], []))
         document = el("w:document", [], [el("w:body", [], body)])
+        if rng.random() < 0.3:
+            document[1].append(["mc:Ignorable", self.requires()])     # what Word writes on the root; prefixes again
         parts = []
         doc_name = "word/document.xml"
         styles_name, numbering_name = "word/styles.xml", "word/numbering.xml"
